@@ -158,7 +158,7 @@ def run(ctx):
     ctx.assumptions = [
         "the scoping model in embgen/scopes.py (from compiler-design.md 'Symbol Resolution'); the pipeline is stopped before annotate_types so only name resolution, dependency and field-reference passes run",
     ]
-    ctx.stats = vlib.run_shards(shard, 16, seed=ctx.seed, n=ctx.pick(50, 1200))
+    ctx.stats = vlib.run_shards(shard, 16, seed=ctx.seed, n=ctx.pick(120, 2000))
     return ctx.finish(None)
 
 
